@@ -293,6 +293,7 @@ func init() {
 			{"nested-untainted", "nested loop expansion happens before the item's scalar fields are substituted (data-flow)", ruleNestedUntainted},
 			{"token-agreement", "block openers are recognised by the compiled pattern only (no second hand-written recogniser)", ruleTokenAgreement},
 			{"scope-precedence", "a scope map filled from a loop item and from the outer variables lets the item's fields win", ruleScopePrecedence},
+			{"pass-unconditional", "no directive pass of renderTemplate is skipped under a condition on the Template object (its own parse) rather than on the rendered text", rulePassUnconditional},
 			{"cross-call-state", "the engine keeps no render results between calls except its guarded template cache", ruleCrossCallStateEngine},
 		},
 		Assumptions: append([]string{"RE2 leftmost-first semantics as documented by package regexp"}, commonAssumptions...),
